@@ -14,37 +14,37 @@ import Y0.Spec.ScmEnvX
 namespace Y0.Driver
 open Y0 Sexp
 
-def cardsOf? (s : Sexp) : Option (Name → Nat) := do
+def semCardsOf? (s : Sexp) : Option (Name → Nat) := do
   let rows ← asPairs? s
   pure fun n => match rows.find? (fun r => r.1 == n) with
     | some r => r.2
     | none => 1
 
-def atomOf? : Sexp → Option Atom
+def semAtomOf? : Sexp → Option Atom
   | .list [n, dos, v] => do pure { name := ← asNat? n, dos := ← asPairs? dos, val := ← asNat? v }
   | _ => none
 
-def atomsOf? : Sexp → Option (List Atom)
-  | .list xs => xs.mapM atomOf?
+def semAtomsOf? : Sexp → Option (List Atom)
+  | .list xs => xs.mapM semAtomOf?
   | _ => none
 
-def ratToSexp (r : Rat) : Sexp := tagged "ok" [.atom (toString r.num), .atom (toString r.den)]
+def semRatToSexp (r : Rat) : Sexp := tagged "ok" [.atom (toString r.num), .atom (toString r.den)]
 
 def handleSem (op : String) (args : List Sexp) : Option Sexp := do
   match op, args with
   | "fscm_pr", [m, cards, atoms] =>
-      pure (ratToSexp (((← modelOf? m).fscmEnv (← cardsOf? cards)).pr none (← atomsOf? atoms)))
+      pure (semRatToSexp (((← modelOf? m).fscmEnv (← semCardsOf? cards)).pr none (← semAtomsOf? atoms)))
   | "fscm_pr_raw", [m, cards, atoms] =>
-      pure (ratToSexp (((← modelOf? m).fscmEnvRaw (← cardsOf? cards)).pr none (← atomsOf? atoms)))
+      pure (semRatToSexp (((← modelOf? m).fscmEnvRaw (← semCardsOf? cards)).pr none (← semAtomsOf? atoms)))
   | "toscm_prdo", [m, cards, base, g, dos, ev] =>
-      pure (ratToSexp (((← modelOf? m).toScm (← cardsOf? cards) (← asNat? base)).prDo (← parseGraph g)
+      pure (semRatToSexp (((← modelOf? m).toScm (← semCardsOf? cards) (← asNat? base)).prDo (← parseGraph g)
         (← asPairs? dos) (← asPairs? ev)))
   | "toscm_env", [m, cards, base, g, atoms] =>
-      pure (ratToSexp ((((← modelOf? m).toScm (← cardsOf? cards) (← asNat? base)).env (← parseGraph g)).pr none
-        (← atomsOf? atoms)))
+      pure (semRatToSexp ((((← modelOf? m).toScm (← semCardsOf? cards) (← asNat? base)).env (← parseGraph g)).pr none
+        (← semAtomsOf? atoms)))
   | "toscm_envx", [m, cards, base, g, atoms] =>
-      pure (ratToSexp ((((← modelOf? m).toScm (← cardsOf? cards) (← asNat? base)).envX (← parseGraph g)).pr none
-        (← atomsOf? atoms)))
+      pure (semRatToSexp ((((← modelOf? m).toScm (← semCardsOf? cards) (← asNat? base)).envX (← parseGraph g)).pr none
+        (← semAtomsOf? atoms)))
   | _, _ => none
 
 end Y0.Driver
